@@ -81,8 +81,9 @@ def run(ctx):
         r1 = ctx.tlc(sd, "MC_HeaderSig", _cfg(sd, "r1.cfg", full, INVS), timeout=1800, coverage=True)
         if r1.ok and r1.coverage_zero:
             ctx.broken.append("vacuity: actions never taken in R1: %s" % sorted(set(r1.coverage_zero)))
-        # export: honest aggregates on every bitmap of groups 1..10, dishonest aggregates on a residue class
-        gen = dict(full, modemod=4, res=res)
+        # export: honest aggregates on every bitmap of groups 1..9 and a quarter of those of 10 members, dishonest
+        # aggregates on a residue class (volume: ~200 k cases, ~100 MB)
+        gen = dict(full, full="1, 2, 3, 4, 5, 6, 7, 8, 9", sampled="10", mod=4, modemod=8, res=res)
         g = ctx.tlc(sd, "MC_HeaderSig", _cfg(sd, "gen.cfg", gen, INVS + "\nACTION_CONSTRAINT EmitDone"), timeout=1800,
                     behaviours_out=beh, count=False)
     lap("R1b+export")
